@@ -27,9 +27,9 @@ theorem slice_eq_filter : ∀ (ps : List (Nat × β)) (i : Nat), ps.Pairwise (fu
     have h' := List.pairwise_cons.1 h
     have ih := slice_eq_filter t i h'.2
     rcases Nat.lt_trichotomy p.1 i with hlt | heq | hgt
-    · have c1 : cntKey (p :: t) i = cntKey t i + 1 := by simp [cntKey, List.filter_cons, hlt]
+    · have c1 : cntKey (p :: t) i = cntKey t i + 1 := by simp [cntKey, hlt]
       have c2 : cntKey (p :: t) (i+1) = cntKey t (i+1) + 1 := by
-        simp [cntKey, List.filter_cons, Nat.lt_succ_of_lt hlt]
+        simp [cntKey, Nat.lt_succ_of_lt hlt]
       have hne : (p.1 == i) = false := by simp; omega
       rw [c1, c2, List.drop_succ_cons, List.filter_cons, hne]
       simpa using ih
@@ -38,11 +38,11 @@ theorem slice_eq_filter : ∀ (ps : List (Nat × β)) (i : Nat), ps.Pairwise (fu
         simp only [cntKey, List.length_eq_zero_iff, List.filter_eq_nil_iff]
         intro q hq; have := hall q hq; simp; omega
       have c1 : cntKey (p :: t) i = 0 := by
-        simp [cntKey, List.filter_cons, heq, c0] ; simpa [cntKey] using c0
+        simp [cntKey, heq]; simpa [cntKey] using c0
       have c2 : cntKey (p :: t) (i+1) = cntKey t (i+1) + 1 := by
-        simp [cntKey, List.filter_cons, heq]
+        simp [cntKey, heq]
       have hpe : (p.1 == i) = true := by simp [heq]
-      rw [c1, c2, List.drop_zero, List.take_succ_cons, List.filter_cons, hpe]
+      rw [c1, c2, List.drop_zero, Nat.sub_zero, List.take_succ_cons, List.filter_cons, hpe]
       rw [c0] at ih
       simp only [List.drop_zero, Nat.sub_zero] at ih
       simp [ih]
@@ -106,21 +106,25 @@ theorem rowptrOf_getD (rows : List Nat) (nrows i : Nat) (hi : i ≤ nrows) :
     (rowptrOf rows nrows).getD i 0 = (rows.filter fun r => decide (r < i)).length := by
   simp [rowptrOf, List.getD_eq_getElem?_getD, Nat.lt_succ_of_le hi]
 
+theorem rowSlice_rowptrOf_ps {β : Type} (ps : List (Nat × β)) (nrows i : Nat) (hi : i < nrows)
+    (hsorted : ps.Pairwise (fun a b => a.1 ≤ b.1)) :
+    rowSlice (ps.map (·.2)) (rowptrOf (ps.map (·.1)) nrows) i = (ps.filter (·.1 == i)).map (·.2) := by
+  have hcnt : ∀ k, ((ps.map (·.1)).filter fun r => decide (r < k)).length = cntKey ps k := by
+    intro k
+    simp [cntKey, List.filter_map, Function.comp_def]
+  rw [rowSlice, rowptrOf_getD _ nrows i (by omega), rowptrOf_getD _ nrows (i+1) (by omega), hcnt, hcnt]
+  rw [← List.map_drop, ← List.map_take, slice_eq_filter _ i hsorted]
+
 theorem rowSlice_rowptrOf {β : Type} (rows : List Nat) (l : List β) (nrows i : Nat) (hi : i < nrows)
     (hlen : rows.length = l.length) (hsorted : rows.Pairwise (· ≤ ·)) :
     rowSlice l (rowptrOf rows nrows) i = ((rows.zip l).filter (·.1 == i)).map (·.2) := by
-  have hl : l = (rows.zip l).map (·.2) := (List.map_snd_zip (Nat.le_of_eq hlen.symm)).symm
-  have hr : rows = (rows.zip l).map (·.1) := (List.map_fst_zip (Nat.le_of_eq hlen)).symm
-  have hcnt : ∀ k, (rows.filter fun r => decide (r < k)).length = cntKey (rows.zip l) k := by
-    intro k
-    conv => lhs; rw [hr]
-    simp [cntKey, List.filter_map, Function.comp_def]
+  have hl : (rows.zip l).map (·.2) = l := List.map_snd_zip (Nat.le_of_eq hlen.symm)
+  have hr : (rows.zip l).map (·.1) = rows := List.map_fst_zip (Nat.le_of_eq hlen)
   have hps : (rows.zip l).Pairwise (fun a b => a.1 ≤ b.1) := by
-    have : ((rows.zip l).map (·.1)).Pairwise (· ≤ ·) := by rw [← hr]; exact hsorted
+    have : ((rows.zip l).map (·.1)).Pairwise (· ≤ ·) := by rw [hr]; exact hsorted
     exact List.pairwise_map.1 this
-  rw [rowSlice, rowptrOf_getD rows nrows i (by omega), rowptrOf_getD rows nrows (i+1) (by omega), hcnt, hcnt]
-  conv => lhs; rw [hl]
-  rw [← List.map_drop, ← List.map_take, slice_eq_filter _ i hps]
+  have := rowSlice_rowptrOf_ps (rows.zip l) nrows i hi hps
+  rwa [hl, hr] at this
 
 theorem monotoneInt_of_pairwise : ∀ {l : List Int}, l.Pairwise (· ≤ ·) → monotoneInt l = true
   | [], _ => rfl
@@ -131,7 +135,7 @@ theorem monotoneInt_of_pairwise : ∀ {l : List Int}, l.Pairwise (· ≤ ·) →
     exact ⟨h'.1 b (List.mem_cons_self ..), monotoneInt_of_pairwise h'.2⟩
 
 theorem length_filter_cast (rows : List Nat) (i : Nat) :
-    ((rows.map fun r => (r : Int)).filter (· < (i : Int))).length = (rows.filter fun r => decide (r < i)).length := by
+    ((rows.map Int.ofNat).filter (· < (i : Int))).length = (rows.filter fun r => decide (r < i)).length := by
   rw [List.filter_map, List.length_map]
   congr 1
   apply List.filter_congr
@@ -142,14 +146,14 @@ theorem length_filter_cast (rows : List Nat) (i : Nat) :
 theorem asCsr_eq (indices : List (List Nat)) (nrows : Nat)
     (hrows : (indices.map fun t => t.getD 0 0).Pairwise (· ≤ ·)) (hlt : ∀ t ∈ indices, t.getD 0 0 < nrows) :
     asCsr indices nrows = .ok (rowptrOf (indices.map fun t => t.getD 0 0) nrows, indices.map fun t => t.getD 1 0) := by
-  have hcast : (indices.map fun t => ((t.getD 0 0 : Nat) : Int)) = (indices.map fun t => t.getD 0 0).map fun r => (r : Int) := by
+  have hcast : (indices.map fun t => ((t.getD 0 0 : Nat) : Int)) = (indices.map fun t => t.getD 0 0).map Int.ofNat := by
     rw [List.map_map]; rfl
   have hpre : monotoneInt (indices.map fun t => ((t.getD 0 0 : Nat) : Int)) = true ∧
       inRangeInt (indices.map fun t => ((t.getD 0 0 : Nat) : Int)) nrows = true := by
     constructor
     · apply monotoneInt_of_pairwise
-      rw [hcast, List.pairwise_map]
-      exact hrows.imp fun h => by omega
+      rw [hcast]
+      exact List.pairwise_map.2 (hrows.imp fun h => Int.ofNat_le.2 h)
     · simp only [inRangeInt, List.all_eq_true, List.mem_map, Bool.and_eq_true, decide_eq_true_eq]
       rintro x ⟨t, ht, rfl⟩
       have := hlt t ht
@@ -181,9 +185,71 @@ theorem csr_of_coo' (add : α → α → α) (zero : α) (hz : ∀ a, add zero a
   have hc := checkCOO_sound' add zero hz _ _ _ _ h
   -- the tuples are pairs
   have hpair : ∀ t ∈ indices, toT (ofT t) = t := fun t ht => toT_ofT (hc.inRange t ht)
-  have hidx : indices = (indices.map ofT).map toT := by
-    rw [List.map_map]; exact (List.map_congr_left (fun t ht => by simp [hpair t ht])).symm.trans (by simp) |>.symm ▸ rfl
-  sorry
+  have hidx : (indices.map ofT).map toT = indices := by
+    rw [List.map_map]
+    conv => rhs; rw [← List.map_id indices]
+    exact List.map_congr_left fun t ht => hpair t ht
+  have hrowsEq : (indices.map fun t => t.getD 0 0) = (indices.map ofT).map (·.1) := by rw [List.map_map]; rfl
+  have hcolsEq : (indices.map fun t => t.getD 1 0) = (indices.map ofT).map (·.2) := by rw [List.map_map]; rfl
+  generalize hps : indices.map ofT = ps at hidx hrowsEq hcolsEq
+  have hlex : ps.Pairwise (fun a b => lexLt (toT a) (toT b) = true) := by
+    have := hc.sorted; rw [← hidx] at this; exact List.pairwise_map.1 this
+  have hpsSorted : ps.Pairwise (fun a b => a.1 ≤ b.1) :=
+    hlex.imp fun {a b} hab => by
+      simp only [toT, lexLt, Bool.or_eq_true, decide_eq_true_eq, Bool.and_eq_true, beq_iff_eq] at hab
+      omega
+  have hbound : ∀ p ∈ ps, p.1 < nrows ∧ p.2 < ncols := by
+    intro p hp
+    have hm : toT p ∈ indices := by rw [← hidx]; exact List.mem_map_of_mem hp
+    obtain ⟨i, j, hij, hi, hj⟩ := inBox_pair.1 (hc.inRange _ hm)
+    simp only [toT, List.cons.injEq, and_true] at hij
+    omega
+  have hlenps : ps.length = values.length := by rw [← hc.length, ← hps]; simp
+  have hrows : (indices.map fun t => t.getD 0 0).Pairwise (· ≤ ·) := by
+    rw [hrowsEq]; exact List.pairwise_map.2 hpsSorted
+  have hlt : ∀ t ∈ indices, t.getD 0 0 < nrows := by
+    intro t ht
+    have : t.getD 0 0 ∈ (indices.map fun t => t.getD 0 0) := List.mem_map_of_mem ht
+    rw [hrowsEq] at this
+    obtain ⟨p, hp, hpe⟩ := List.mem_map.1 this
+    rw [← hpe]; exact (hbound p hp).1
+  refine ⟨_, _, asCsr_eq indices nrows hrows hlt, ?_⟩
+  rw [hrowsEq, hcolsEq]
+  apply checkCSR_complete' add zero hz
+  refine ⟨by simp [rowptrOf], ?_, ?_, ?_, by simpa using hlenps, ?_, ?_, hc.shape_eq, ?_⟩
+  · simp [rowptrOf, List.head?_range]
+  · rw [rowptrOf, List.pairwise_map]
+    refine List.pairwise_lt_range.imp fun {a b} hab => ?_
+    rw [← List.countP_eq_length_filter, ← List.countP_eq_length_filter]
+    exact List.countP_mono_left fun x _ hx => by simp at hx ⊢; omega
+  · rw [rowptrOf, List.getLast?_map, List.getLast?_range]
+    simp only [Nat.add_one_ne_zero, if_false, Nat.add_sub_cancel, Option.map_some, Option.some.injEq]
+    rw [← hlenps]
+    have : ((ps.map (·.1)).filter fun r => decide (r < nrows)) = ps.map (·.1) := by
+      rw [List.filter_eq_self]
+      intro r hr
+      obtain ⟨p, hp, rfl⟩ := List.mem_map.1 hr
+      simpa using (hbound p hp).1
+    rw [this]; simp
+  · intro c hcm
+    obtain ⟨p, hp, rfl⟩ := List.mem_map.1 hcm
+    exact (hbound p hp).2
+  · intro i hi
+    rw [rowSlice_rowptrOf_ps ps nrows i hi hpsSorted]
+    rw [List.pairwise_map]
+    exact (hlex.filter (fun p => p.1 == i)).imp_of_mem fun {a b} ha hb hab => by
+      have ha' : a.1 = i := by simpa using (List.mem_filter.1 ha).2
+      have hb' : b.1 = i := by simpa using (List.mem_filter.1 hb).2
+      simp [toT, lexLt] at hab
+      omega
+  · intro i j hi hj
+    have hbox : inBox [nrows, ncols] [i, j] = true := inBox_pair.2 ⟨i, j, rfl, hi, hj⟩
+    rw [hc.denotes [i, j] hbox]
+    unfold scatterSum
+    rw [rowSlice_zip, rowSlice_rowptrOf (ps.map (·.1)) ((ps.map (·.2)).zip values) nrows i hi (by simp [hlenps])
+      (List.pairwise_map.2 hpsSorted)]
+    conv => lhs; rw [← hidx]
+    exact foldl_filter_pair add i j ps values zero
 
 end
 
